@@ -133,7 +133,7 @@ CONF_PY = "extensions = ['myst_parser']\nproject = 'simproj'\nexclude_patterns =
 
 def sphinx_build(srcdir: str, outname: str, root: str, confoverrides: dict | None = None, builder: str = "xml",
                  parallel: int = 0, hooks=None, keep_app: bool = False, write_phase: bool = True,
-                 observe: str = "written", incremental: bool = False):
+                 observe: str = "written", incremental: bool = False, share_confoverrides: bool = False):
     """One fresh in-process Sphinx application on ``srcdir``.
 
     Returns ``("ok", {docname: output}, sorted_warnings, extra)`` or ``("exc", signature, warnings, extra)``.
@@ -150,7 +150,8 @@ def sphinx_build(srcdir: str, outname: str, root: str, confoverrides: dict | Non
     extra: dict = {}
     try:
         with docutils_namespace():
-            app = Sphinx(srcdir, srcdir, outdir, doctreedir, builder, confoverrides=dict(confoverrides or {}),
+            app = Sphinx(srcdir, srcdir, outdir, doctreedir, builder,
+                         confoverrides=confoverrides if share_confoverrides else dict(confoverrides or {}),
                          status=status, warning=warning, freshenv=not incremental, parallel=parallel,
                          warningiserror=False, keep_going=True)
             cfg0 = _cfg_snapshot(app)
